@@ -29,6 +29,18 @@ GY = 0x4fe342e2fe1a7f9b8ee7eb4a7c0f9e162bce33576b315ececbb6406837bf51f5
 N_ORDER = 0xffffffff00000000ffffffffffffffffbce6faada7179e84f3b9cac2fc632551
 
 
+# (recipient scalar, ephemeral scalar) pairs whose ECDH shared x-coordinate starts with 0x00 byte(s)
+# (found offline with the textbook arithmetic below; the shared secret must still be 32 bytes)
+LEADING_ZERO_PAIRS = [
+    (0xb938451ee325faa633406bc44dc2a627940eee3cba6f875c2e84496e7857dd87,
+     0xa2da95a83ec33dd6887e840043e58844c2354e2bb7740a63c1d8fac168fb912a),
+    (0xb938451ee325faa633406bc44dc2a627940eee3cba6f875c2e84496e7857dd87,
+     0xa2da95a83ec33dd6887e840043e58844c2354e2bb7740a63c1d8fac168fb916d),
+    (0xb938451ee325faa633406bc44dc2a627940eee3cba6f875c2e84496e7857dd87,
+     0xa2da95a83ec33dd6887e840043e58844c2354e2bb7740a63c1d8fac168fb918f),
+]
+
+
 def on_curve(x, y):
     return 0 <= x < P and 0 <= y < P and (y * y - (x * x * x + A * x + Bc)) % P == 0
 
@@ -210,6 +222,26 @@ def search(ctx):
                     except (subprocess.SubprocessError, OSError) as e:
                         ctx.notes.append("openssl run failed: %r" % e)
                         ossl = None
+        # shared secrets with leading zero bytes: ephemeral keys chosen through the plug-in API
+        for d, e in LEADING_ZERO_PAIRS:
+            class FixedPriv(plug.PrivateEccKeyProxy):
+                @classmethod
+                def generate(cls):
+                    return cls(SigningKey.from_secret_exponent(e, NIST256p))
+            bec2format.register_PrivateEccKey(FixedPriv)
+            try:
+                priv = plug.PrivateEccKeyProxy(SigningKey.from_secret_exponent(d, NIST256p))
+                key = C.gen_key(r)
+                ctx.case(("leading-zero-secret", d, e, key))
+                blk = run_impl(lambda: InitEccAuthBlock(2).pack(key, [EccEncryptor(2, priv.public_key)]))
+                shared = ec_mul(d, ec_mul(e, (GX, GY)))[0]
+                assert shared < 2 ** 248
+                got = run_impl(indep_recipient, d, blk[1]) if blk[0] == "ok" else blk
+                if got != ("ok", (2, key)):
+                    ctx.fail("ecies-independent-recipient", {"d": hex(d), "ephemeral": hex(e), "key": key,
+                                                              "note": "shared x-coordinate has a leading zero byte"}, repr(got)[:200])
+            finally:
+                bec2format.register_PrivateEccKey(plug.PrivateEccKeyProxy)
         # default recipients: observe the public key handed to ECDH through a recording plug-in
         seen = []
 
